@@ -49,6 +49,10 @@ def run(rep, work, tier, seed):
           expect_actions=["Make", "EnterMade", "Record", "RunCb"], timeout=3000)
     leg_r(rep, work, SPEC, f"made_conf_{tier}", cfg_text(madec, invariants=INVS), lambda: MetricsDriver(["Cat"]),
           internal=INTERNAL, world=True)
+    # a metric type whose merge function answers with another class than the one recorded (a subclass folded into its base)
+    poly = dict(NTasks=1, N=2, MaxOps=6, MaxRec=3, MaxT=0, MTypes=["CatSub", "Last"], Kinds=["s"], Prep=False, Bug="none")
+    leg_r(rep, work, SPEC, f"poly_conf_{tier}", cfg_text(poly, invariants=INVS), lambda: MetricsDriver(["CatSub", "Last"]),
+          internal=INTERNAL, world=True)
     # leg T: random programs over 4 tasks / 8 scopes recorded from the real library, validated by a trace module
     # generated from Metrics.tla (callbacks run as silent internal steps between the logged events)
     rnd = random.Random(seed * 19 + 5)
